@@ -76,6 +76,17 @@ cat > "$CASES" <<'EOF'
 {"k":"rule","id":57,"rule":"detection:\n  A:\n    foo: bar\n  condition: A\ntrue_positives: []\ntrue_negatives: []\n","docs":[],"sw":[0,5],"reads":true,"validate":true,"trees":true}
 {"k":"rule","id":58,"rule":"detection:\n  A:\n    foo: bar\n  condition: A\n","docs":[{"t":"o","v":[]}],"sw":[16]}
 {"k":"rule","id":59,"rule":"detection:\n  B:\n    g: 1\n  D:\n    c: y\n  C:\n    a: z\n    d: 1\n  E:\n    a: w\n    e: 1\n  condition: (str(a) == str(b) and B and D) or C or E\ntrue_positives: []\ntrue_negatives: []\n","docs":[{"t":"o","v":[["a",{"t":"s","v":"x"}],["b",{"t":"s","v":"x"}],["c",{"t":"s","v":"y"}]]},{"t":"o","v":[]}],"sw":[0,11],"reads":true}
+{"k":"rep","id":101,"rule":"detection:\n  A:\n    n: '>=5'\n  B:\n    s: 'a*'\n  condition: A or B\ntrue_positives: []\ntrue_negatives: []\n","docs":[{"t":"o","v":[["n",{"t":"u","v":"7"}]]},{"t":"o","v":[["n",{"t":"i","v":"7"}]]},{"t":"o","v":[["n",{"t":"i","v":"-3"}]]},{"t":"o","v":[["s",{"t":"s","v":"abc"}]]},{"t":"o","v":[["n",{"t":"f","v":"4619567317775286272"}]]},{"t":"o","v":[["n",{"t":"n"}],["s",{"t":"s","v":"abc"}]]},{"t":"o","v":[["s",{"t":"a","v":[{"t":"s","v":"x"},{"t":"s","v":"abc"}]}]]},{"t":"o","v":[["n",{"t":"f","v":"9221120237041090560"}]]},{"t":"o","v":[["n",{"t":"u","v":"18446744073709551615"}]]},{"t":"o","v":[["n",{"t":"i","v":"-1"}],["m",{"t":"u","v":"18446744073709551615"}]]},{"t":"o","v":[]},{"t":"o","v":[["n",{"t":"b","v":true}]]}]}
+{"k":"rep","id":102,"rule":"detection:\n  A:\n    a.b: x\n    c:\n      d: 'y*'\n  B:\n    e[1]: 2\n  condition: A or B\ntrue_positives: []\ntrue_negatives: []\n","docs":[{"t":"o","v":[["a",{"t":"o","v":[["b",{"t":"s","v":"x"}]]}],["c",{"t":"o","v":[["d",{"t":"s","v":"yes"}]]}]]},{"t":"o","v":[["e",{"t":"a","v":[{"t":"i","v":"1"},{"t":"i","v":"2"}]}]]},{"t":"o","v":[["a",{"t":"s","v":"x"}],["a",{"t":"o","v":[["b",{"t":"s","v":"x"}]]}]]},{"t":"o","v":[["a.b",{"t":"s","v":"x"}]]}]}
+{"k":"rep","id":103,"rule":"detection:\n  A:\n    foo: bar\n  condition: A and Z\n","docs":[]}
+{"k":"rep","id":104,"rule":"detection:\n  A:\n    foo: bar\n  condition: A\ntrue_positives: []\ntrue_negatives: []\n","docs":[]}
+{"k":"det","id":111,"rule":"detection:\n  A:\n  - a: x\n    b: y\n  - a: z\n    c: w\n  - d: q\n  B:\n    e: 1\n  condition: not A and B\ntrue_positives: []\ntrue_negatives: []\n","docs":[{"t":"o","v":[["a",{"t":"s","v":"x"}],["e",{"t":"i","v":"1"}]]},{"t":"o","v":[["a",{"t":"s","v":"z"}],["c",{"t":"s","v":"w"}],["e",{"t":"i","v":"1"}]]},{"t":"o","v":[["e",{"t":"i","v":"1"}]]},{"t":"o","v":[]}],"sw":[0,7,15],"reps":40,"threads":4}
+{"k":"det","id":112,"rule":"detection:\n  A:\n    foo: 'a*'\n  condition: A\ntrue_positives: []\ntrue_negatives: []\n","docs":[{"t":"o","v":[["foo",{"t":"s","v":"abc"}]]},{"t":"o","v":[["foo",{"t":"s","v":"xbc"}]]}],"sw":[],"reps":3,"threads":2}
+{"k":"det","id":113,"rule":"detection: {}","docs":[],"sw":[0],"reps":1,"threads":1}
+{"k":"rt","id":121,"rule":"detection:\n  A:\n    foo: 'a*'\n    all(bar): ['*x*', '*y*']\n  B:\n    of(baz, 2): ['?^ab.*', iQ, '*z']\n    n: '>=5'\n  condition: A and not B\ntrue_positives:\n- foo: abc\n  bar: xy\ntrue_negatives:\n- foo: q\n","docs":[{"t":"o","v":[["foo",{"t":"s","v":"abc"}],["bar",{"t":"s","v":"xy"}],["n",{"t":"u","v":"7"}]]},{"t":"o","v":[["foo",{"t":"s","v":"abc"}],["bar",{"t":"s","v":"xy"}],["baz",{"t":"s","v":"abz"}],["n",{"t":"u","v":"7"}]]},{"t":"o","v":[["foo",{"t":"s","v":"abc"}],["bar",{"t":"s","v":"xy"}],["baz",{"t":"s","v":"q"}],["n",{"t":"i","v":"2"}]]},{"t":"o","v":[]}]}
+{"k":"rt","id":122,"rule":"detection:\n  1:\n    foo: bar\n  condition: A\n  A:\n    x: 1\ntrue_positives: []\ntrue_negatives: []\n","docs":[{"t":"o","v":[["x",{"t":"i","v":"1"}]]}]}
+{"k":"rt","id":123,"rule":"detection:\n  A:\n    foo: 'null'\n    bar: '1'\n    baz: 'true'\n    qux: '~'\n  condition: A\ntrue_positives: []\ntrue_negatives: []\n","docs":[{"t":"o","v":[["foo",{"t":"s","v":"null"}],["bar",{"t":"s","v":"1"}],["baz",{"t":"s","v":"true"}],["qux",{"t":"s","v":"~"}]]},{"t":"o","v":[["foo",{"t":"n"}],["bar",{"t":"i","v":"1"}],["baz",{"t":"b","v":true}],["qux",{"t":"n"}]]}]}
+{"k":"rt","id":124,"rule":"detection: nope","docs":[]}
 {"k":"bogus","id":91}
 {"k":"tok","id":92}
 this is not json "id": 93 at all
@@ -128,9 +139,9 @@ expect "$MODEL" "(37 skip)"
 expect "$IMPL" "(43)"
 expect "$IMPL" "(44 harness_error)"
 expect "$IMPL" "(51 (load ok) (cond "
-expect "$IMPL" "(validate ok))"
-expect "$IMPL" "(52 (load ok) (res 0 t) (validate err 1 2 1000))"
-expect "$IMPL" "(53 (load err))"
+expect "$IMPL" "(validate ok) (x (fromstr ok)))"
+expect "$IMPL" "(52 (load ok) (res 0 t) (validate err 1 2 1000) (x (fromstr ok)))"
+expect "$IMPL" "(53 (load err) (x (fromstr err)))"
 expect "$IMPL" "(54 skip)"
 case "$FEATURES" in
 *ignore_case*) # the `i` prefix is not special and everything is case-insensitive
@@ -141,10 +152,29 @@ case "$FEATURES" in
     expect "$IMPL" "(22 ok (contains (s 102 111 111)) 1)"
     expect "$IMPL" "(25 ok (ge 5) 0)"
     expect "$IMPL" "(29 ok (any) 0)"
-    expect "$IMPL" "(57 (load ok) (cond (ident (s 65))) (ids ((s 65) (search (exact (s 98 97 114)) (s 102 111 111) 0))) (res 0) (res 5) (reads 0) (reads 5) (validate ok))" ;;
+    expect "$IMPL" "(57 (load ok) (cond (ident (s 65))) (ids ((s 65) (search (exact (s 98 97 114)) (s 102 111 111) 0))) (res 0) (res 5) (reads 0) (reads 5) (validate ok) (x (fromstr ok)))" ;;
 esac
 # known finding D19: the matrix cell looks a real key up in the private cache -> panic while solving
-expect "$IMPL" "(59 (load ok) (res 0 fm) (res 11 pm) (reads 0 ((s 97) (s 98) (s 103)) ((s 97))) (reads 11 (panic) ((s 97) (s 100) (s 101))))"
+expect "$IMPL" "(59 (load ok) (res 0 fm) (res 11 pm) (reads 0 ((s 97) (s 98) (s 103)) ((s 97))) (reads 11 (panic) ((s 97) (s 100) (s 101))) (x (fromstr ok)))"
+
+# ---- crate-only kinds: rep / det / rt (model.in gets (ID skip)) --------------------------------
+expect "$MODEL" "(101 skip)"
+expect "$MODEL" "(111 skip)"
+expect "$MODEL" "(121 skip)"
+expect "$IMPL" "(101 (load ok) (rep dv ttftfttftfmf) (rep yaml ttftfttftfmf) (rep json ttftftt-tfmf) (rep hjson ttftftt-tfmf) (rep flat ttftfttft-mf) (rep flat_i64 ttf---------) (rep custom ttftfttftfmf))"
+expect "$IMPL" "(102 (load ok) (rep dv ttmm) (rep yaml ttmm) (rep json ttmm) (rep hjson ttmm) (rep flat -tmm) (rep flat_i64 -t--) (rep custom ttmm))"
+expect "$IMPL" "(103 (load err))"
+expect "$IMPL" "(104 (load ok) (rep dv e) (rep yaml e) (rep json e) (rep hjson e) (rep flat e) (rep flat_i64 e) (rep custom e))"
+# the number of distinct Display strings under the matrix optimisation depends on the hash seeds
+expect "$IMPL" "(111 (load ok) (det 0 1 1 tfff tfff) (det 7 1 1 tfff tfff) (det 15 "
+expect "$IMPL" " 1 ffff ffff) (threads unopt 1) (threads opt 1) (purity 1))"
+expect "$IMPL" "(112 (load ok) (threads unopt 1) (threads opt -) (purity 1))"
+expect "$IMPL" "(113 (load err))"
+expect "$IMPL" "(121 (load ok) (reload ok) (trees 1) (examples 1) (verdicts fftm fftm) (reload_opt ok) (flag 1) (verdicts_opt fftm fftm) (trees_opt 1) (fromvalue ok) (len 237))"
+# known finding D23: from_str accepts the non-string identifier name, from_value does not
+expect "$IMPL" "(122 (load ok) (reload ok) (trees 1) (examples 1) (verdicts t t) (reload_opt ok) (flag 1) (verdicts_opt t t) (trees_opt 1) (fromvalue err) (len 115))"
+expect "$IMPL" "(123 (load ok) (reload ok) (trees 1) (examples 1) (verdicts tm tm) (reload_opt ok) (flag 1) (verdicts_opt tm tm) (trees_opt 1) (fromvalue ok) (len 144))"
+expect "$IMPL" "(124 (load err))"
 
 # ---- a panic inside optimise() (known finding D21: >= 55297 matrix columns) -------------------
 BIG="$WORK/big.jsonl"
@@ -157,7 +187,7 @@ awk 'BEGIN {
 "$BIN" "$WORK/big.impl" "$WORK/big.model" < "$BIG"
 echo "big case impl.out: $(cat "$WORK/big.impl")"
 echo "big case model.in: $(wc -c < "$WORK/big.model") bytes, $(wc -l < "$WORK/big.model") line(s)"
-expect "$WORK/big.impl" "(60 (load ok) (res 0 t) (res 10 x) (res 2 t))"
+expect "$WORK/big.impl" "(60 (load ok) (res 0 t) (res 10 x) (res 2 t) (x (fromstr ok)))"
 expect "$IMPL" "(58 harness_error)"
 expect "$IMPL" "(91 harness_error)"
 expect "$IMPL" "(92 harness_error)"
